@@ -1940,6 +1940,17 @@ def custom_list_ties(chk, plain):
                branches=br)
 
 
+def long_list_ties(chk, plain):
+    """Sixth round (family in harness/w2_util.py): every stock above has at most a dozen rows, so a rule that depends on the
+    LENGTH of the list (a tolerance that grows with the number of rows, a cap on the rows, a loop bound) is the identity
+    there. Long lists with rounded shares: accepted iff the total is within the documented 0.01 of one; simulated fractions
+    sum to one."""
+    import w2_util as W
+    n, bad, br = W.long_stock_lists(chk, plain)
+    chk.direct('long-stock-lists(11..120 rows, rounded shares: acceptance independent of the length; simulated fractions sum to one)',
+               n, n, W.LONG_RULE, mismatches=bad, branches=br)
+
+
 def run(chk, focus='C07', module=MODULE, theorems=THEOREMS):
     early = circumstance_start(chk) if focus == 'C07' else None
     chk.proof(module, theorems)
@@ -1957,6 +1968,7 @@ def run(chk, focus='C07', module=MODULE, theorems=THEOREMS):
         identity_ties(chk, ses.plain)
         era_schedule_runs(chk, ses.plain)
         custom_list_ties(chk, ses.plain)
+        long_list_ties(chk, ses.plain)
         circumstance_ties(chk, ses.plain, early)
     report(chk, ses, focus)
     chk.assumptions.append(
